@@ -267,7 +267,9 @@ def main():
     for name in ("t2_3", "t1_3", "t2_2", "t3_2"):
         items.append((name, "pt", "default", False, (4, 4), 4 if quick else 24))
     if not quick:
-        items.append(("t4_2", "pt", "default", False, (4, 4), 4))
+        # fully expanded: the factorised quadruples t1*t1 equal the RSPT coefficient only for first-order
+        # doubles that fulfil their own equation (the induction with free lower-order amplitudes does not apply)
+        items.append(("t4_2", "pt", "default", True, (4, 4), 4))
         items.append(("t2_3", "pt", "default", True, (4, 4), 2))
     for name in DENS:
         for v in variants:
@@ -294,7 +296,7 @@ def main():
         items.append((name, "symmetry", "default", False, (2, 2)))
     if not quick:
         items.append(("t4_2", "symmetry", "default", False, (4, 4)))
-    results = pmap(run_case, items, limit=1200 if quick else 7200, workers=15)
+    results = pmap(run_case, items, limit=1200 if quick else 2400, workers=15)
     guards = [0, 0]
     for r in results:
         st = r.get("status")
